@@ -100,6 +100,15 @@ def guards(ev):
     return out
 
 
+def guards_in(ev, qualname):
+    """Conjuncts of the dominating conditions that were tested inside function `qualname` (callers' guards left out)."""
+    out = []
+    for p in ev.pc:
+        if p.func is not None and p.func.qualname == qualname:
+            out.extend(conjuncts(p.cond))
+    return out
+
+
 def ite_leaves(t, conds=()):
     a = t.single_atom()
     if a is not None and a[0] == "ite":
